@@ -79,6 +79,9 @@ func (s Step) String() string {
 		return fmt.Sprintf("T %d", s.Fin)
 	case 'S':
 		return "S"
+	case 'N': // node mode only: a poll during which the node first has NO finalised block (three null
+		// answers, safe head = Fin) and then reports Fin1, a height it had reported before; model: T Fin1
+		return fmt.Sprintf("N %d %d", s.Fin, s.Fin1)
 	case 'C':
 		fail := "-"
 		if s.Fail >= 0 {
@@ -133,6 +136,11 @@ func parseStep(txt string) (Step, uint64, error) {
 		return Step{K: 'T', Fin: num(f[1])}, 0, nil
 	case "S":
 		return Step{K: 'S'}, 0, nil
+	case "N":
+		if len(f) != 3 {
+			return bad()
+		}
+		return Step{K: 'N', Fin: num(f[1]), Fin1: num(f[2])}, 0, nil
 	case "C":
 		if len(f) != 7 {
 			return bad()
@@ -161,6 +169,7 @@ type Case struct {
 	Chunk uint64
 	Steps []Step
 	Fwd   bool // mode C: live events and catch-up logs go through the real geth adapter
+	Node  bool // mode D: real GethL1StateProvider against a scripted Ethereum JSON-RPC node
 	// generator statistics (not part of the case)
 	Gen    string
 	Reorgs int
@@ -190,7 +199,11 @@ func (c *Case) line(obs []string) string {
 		if i < len(obs) && obs[i] != "" {
 			o = obs[i]
 		}
-		parts[i] = s.Text(c.Chunk) + " @ " + o
+		txt := s.Text(c.Chunk)
+		if s.K == 'N' {
+			txt = fmt.Sprintf("T %d", s.Fin1) // the null answers are invisible to the client
+		}
+		parts[i] = txt + " @ " + o
 	}
 	return c.h0Text() + " | " + strings.Join(parts, " ; ")
 }
@@ -201,7 +214,7 @@ func (c *Case) key() string {
 }
 
 type Replay struct {
-	Mode  string   `json:"mode"` // det | run | fwd
+	Mode  string   `json:"mode"` // det | run | fwd | node
 	H0    string   `json:"h0"`
 	Chunk uint64   `json:"chunk"`
 	Steps []string `json:"steps"`
@@ -214,7 +227,7 @@ func (c *Case) replay(mode string) Replay {
 }
 
 func caseOfReplay(rp *Replay) *Case {
-	cs := &Case{Chunk: rp.Chunk, Gen: "replay", Fwd: rp.Mode == "fwd"}
+	cs := &Case{Chunk: rp.Chunk, Gen: "replay", Fwd: rp.Mode == "fwd", Node: rp.Mode == "node"}
 	if cs.Chunk == 0 {
 		cs.Chunk = 1 // chunk 0 does not terminate in the Go code
 	}
